@@ -48,7 +48,20 @@ def check(prog, run):
         if moov is None:
             continue
         w = L.width([moov])
-        bad = [k for k in w.terms if L.mentions(k, lambda x: isinstance(x, tuple) and len(x) == 3 and x[0] == "acc")]
+        offs = set()
+        for (p_, b_, c_) in B.walk_boxes(moov[2]):
+            if p_[-1] == b"stco":
+                def grab(x):
+                    if isinstance(x, tuple):
+                        if len(x) == 3 and x[0] == "acc":
+                            offs.add(x[1])
+                        for y in x:
+                            grab(y)
+                    elif isinstance(x, list):
+                        for y in x:
+                            grab(y)
+                grab(b_[2])
+        bad = [k for k in w.terms if L.mentions(k, lambda x: isinstance(x, tuple) and len(x) == 3 and x[0] == "acc" and x[1] in offs)]
         run.check(not bad, "R1", key + " moov-width", "width = %d + %d symbolic length term(s), none depends on an offset value" % (w.const, len(w.terms)),
                   "the moov length depends on chunk-offset values: %s" % [L.show(b)[:80] for b in bad])
         # R3 via C01
@@ -74,7 +87,7 @@ def check(prog, run):
 
 def _masked(moov):
     def is_off(e):
-        return L.mentions(e, lambda x: isinstance(x, tuple) and len(x) == 3 and x[0] == "acc")
+        return L.mentions(e, lambda x: isinstance(x, tuple) and len(x) == 3 and x[0] == "acc" and str(x[2]).startswith("P"))
     segs = L.mask_values([moov], is_off)
     # the single-chunk offset is the only stco entry that is not an accumulator: mask every stco entry
     out = []
